@@ -11,6 +11,7 @@ import VsgModel.Engine.CheckRules
 import VsgModel.Engine.Stub
 import VsgProofs.Lemmas.Engine
 import VsgProofs.Lemmas.FixTrace
+import VsgProofs.Lemmas.SortByStart
 namespace Vsgm.C20
 open Vsgm Vsgm.Lemmas
 
@@ -33,8 +34,8 @@ theorem fixOnly_lines (rs : List Rule) (fixPhase : Nat) (skip : List Nat) (d : F
     ev.fixed =
       match d ev.rule.1.id with
       | none => []
-      | some (true, _) => ev.rule.2.analyze ev.seen
-      | some (false, lines) => (ev.rule.2.analyze ev.seen).filter (fun v => v.line ∈ lines) := by
+      | some (true, _) => sortByStart (ev.rule.2.analyze ev.seen)
+      | some (false, lines) => (sortByStart (ev.rule.2.analyze ev.seen)).filter (fun v => v.line ∈ lines) := by
   rw [(mem_traceFrom _ post _ f ev h).2.2.2, fixOnly_filter_spec]
 
 /-- line clause: for a rule listed with line numbers a violation is fixed iff it was found by the
@@ -44,7 +45,7 @@ theorem fixOnly_listed_lines_iff (rs : List Rule) (fixPhase : Nat) (skip : List 
     (lines : List Nat) (hd : d ev.rule.1.id = some (false, lines)) (v : Viol) :
     v ∈ ev.fixed ↔ v ∈ ev.rule.2.analyze ev.seen ∧ v.line ∈ lines := by
   rw [fixOnly_lines rs fixPhase skip d post f ev h, hd]
-  simp [List.mem_filter]
+  simp [List.mem_filter, Lemmas.mem_sortByStart]
 
 /-- listing every rule with "all" is a plain `--fix`: same token list, same had_violations, same
     `_fix_violation` calls -/
